@@ -425,10 +425,20 @@ def tips(ctx, P):
     ctx.ob("ConnectTip/flushes-connected-view", "PROVENANCE", "the view flushed by ConnectTip is the one ConnectBlock applied the block to", ok, ct.where)
 
 
-def check(ctx):
+def _check_structure(ctx):
     P = ctx.program(UNITS)
     update_coins(ctx, P)
     connect_block(ctx, P)
     apply_undo(ctx, P)
     disconnect_block(ctx, P)
     tips(ctx, P)
+
+
+def check(ctx):
+    _check_structure(ctx)
+    # the undo record is read back through the compressed coin encoding: its writer/reader agreement (C18's TxInUndo, Coin and
+    # script-compression obligations) is a necessary condition of "disconnecting restores exactly the spent coins"
+    from sa.rules import C18
+    P18 = ctx.program(C18.UNITS)
+    C18.compare_pair(ctx, P18, "TxInUndo", "TxInUndoFormatter::Ser", "TxInUndoFormatter::Unser", "Coin", "#1")
+    C18.script_compression(ctx, P18)
